@@ -195,7 +195,12 @@ impl LedgerWorld {
         if let Some(e) = &d.edit {
             self.apply_tx_edit_pre(&mut tx, e)?;
         }
-        tx.sign(&signer.private);
+        if d.edit.as_deref() == Some("zero_lead_foreign") {
+            // signed by the key of the zero-amount leading input, which owns nothing spent here
+            tx.sign(&self.keys["m"].private);
+        } else {
+            tx.sign(&signer.private);
+        }
         if let Some(e) = &d.edit {
             self.apply_tx_edit_post(&mut tx, e, signer)?;
         }
@@ -237,6 +242,14 @@ impl LedgerWorld {
                 s.tx_ordinal += 77;
                 s.generate_utxoset_key();
                 tx.from.push(s);
+            }
+            // a zero-amount first input carrying another key than the owner of the value inputs;
+            // the transaction is then signed by that other key (see make_tx)
+            "zero_lead_foreign" => {
+                let mut z = Slip::default();
+                z.public_key = self.keys["m"].public;
+                z.amount = 0;
+                tx.from.insert(0, z);
             }
             // outputs exceed inputs by one
             "overspend" => {
@@ -348,7 +361,7 @@ pub fn amt_json(a: u64) -> Value {
 pub fn sig_ok_by_construction(d: &TxDesc) -> bool {
     !matches!(
         d.edit.as_deref(),
-        Some("forge_sig") | Some("no_sig") | Some("flip_sig") | Some("tamper_output")
+        Some("forge_sig") | Some("no_sig") | Some("flip_sig") | Some("tamper_output") | Some("zero_lead_foreign")
     )
 }
 
